@@ -382,6 +382,32 @@ def sample (env : HEnv K) (h : Heap K) (o : Nat) (xs : List K) : Except Err (Lis
       let t ← ob.model
       sampleTree env h t xs
 
+/-- the sampling set of a compound model (`_model_tree_evaluate_sampleset`, models.py:785-851; the
+analogue of `Tree.sampleset` on references): a table's own points, an analytic leaf's set (data),
+a black body's set (`bbss`, data), the merge of both operands', unchanged by `Scale`, multiplied by
+`1+z` under a redshift -/
+def HTree.sampleset (thr : K) (bbss : K → Option (List K)) (h : Heap K) : HTree K → Option (List K)
+  | .tab m => (h.table m).map fun t => t.1.pts
+  | .ana l => l.sampleset
+  | .bb temp => bbss temp
+  | .bin _ l r => mergeWavelengths thr (l.sampleset thr bbss h) (r.sampleset thr bbss h)
+  | .scale m _ => m.sampleset thr bbss h
+  | .redshift z m => (m.sampleset thr bbss h).map fun w => w.map (· * (1 + z))
+
+/-- the `waveset` property as a pure function of the store: computed from the object's **current**
+model (current redshift, current tables) on every access; `none` is Python's `None` -/
+def waveset (thr : K) (bbss : K → Option (List K)) (h : Heap K) (o : Nat) : Except Err (Option (List K)) :=
+  match h.objs[o]? with
+  | none => .error .lookupError
+  | some ob => do
+      let t ← ob.model
+      if t.ws = .bad then .error .unsortedWavelength else
+      match t.sampleset thr bbss h with
+      | none => pure none
+      | some w => do
+          validateWavelengths w
+          pure (some w)
+
 /-- net effect on `np.geterr()` of evaluating a tree: `BlackBody1D.evaluate` switches everything to
 `'ignore'` and restores the old settings after the computation; when `blackbody_nu` raises, the
 restoring line is not reached (as found) / `np.errstate` restores (repaired) -/
